@@ -85,6 +85,14 @@ def table_set(fam1, fam2, small):
 
 
 def cases(tier, seed):
+    from mc import rebuild as RB
+    for tname in HISTORY_TREES:
+        for h in RB.histories(tier):
+            yield {"k": "C", "tree": tname, "history": h}
+    yield from cases_(tier, seed)
+
+
+def cases_(tier, seed):
     quick = tier == "quick"
     Nmax = 4 if quick else 5
     for famname in (("spin3", "eph3", "mixed3") if quick else ("spin3", "eph3", "mixed3", "spin4", "eph4")):
@@ -160,9 +168,40 @@ def check_ttno(tree, order_basis, fam, table, factors, viol, tag, counters, mpo_
     return nontrivial
 
 
+HISTORY_TREES = {"linear": ([-1, 0, 1], [[0], [1], [2]]), "star+virtual-root": ([-1, 0, 0, 0], [[], [0], [1], [2]]), "grouped": ([-1, 0], [[0, 1], [2]])}
+
+
+def run_history(desc, seed):
+    """(C) construction histories in one process: see mc/rebuild.py"""
+    from renormalizer.tn import TTNO
+    from mc import rebuild as RB
+    V = RB.variants()
+    viol = {}
+    nb = 0
+    parent, groups = HISTORY_TREES[desc["tree"]]
+    for step, name in enumerate(desc["history"]):
+        basis = V[name]
+        ref = RB.dense_of(basis)
+        tree = TR.build_basis_tree(parent, groups, basis)
+        try:
+            got = np.asarray(TTNO(tree, RB.ops_of(basis)).todense(list(basis)))
+        except Exception as e:
+            sig = f"C02:history:exception:{type(e).__name__}"
+            viol.setdefault(sig, {"sig": sig, "msg": f"tree {desc['tree']} history {desc['history']} step {step} ({name}): {e!r}"})
+            continue
+        nb += 1
+        if not close(got, ref, 1e-9):
+            sig = f"C02:history:mismatch:{'first' if step == 0 else 'later'}-construction"
+            viol.setdefault(sig, {"sig": sig, "msg": f"tree {desc['tree']} history {desc['history']}: operator number {step + 1} ({name}) differs from its dense reference by rel {rel_err(got, ref):.2e}"})
+    return {"nontrivial": nb >= 2, "counters": {"history_constructions": nb}, "outcome": f"history:{'viol' if viol else 'ok'}", "viol": list(viol.values()),
+            "sample": {"desc": desc}}
+
+
 def run_case(desc, seed):
     viol = {}
     counters = {}
+    if desc["k"] == "C":
+        return run_history(desc, seed)
     if desc["k"] == "A":
         kinds = FAMS[desc["fam"]]
         fam1 = family(kinds, 1)
